@@ -296,4 +296,181 @@ theorem readAllWith_rep (c : Codec) (hg : Good c) (ks : List Nat) (r : Reader) (
         have := ih r' pend' bs' (fun k hk => hks k (by simp [hk])) hl' hne' hrep'
         simp only [this, Option.map_some, htot]
 
+
+/-- a represented state stays represented when the pending output is marked as consumed -/
+theorem Rep.consume {c : Codec} {r : Reader} {pend : Bytes} {bs : List Bytes} (h : Rep c r pend bs) :
+    Rep c { r with offset := r.output.length } [] bs := by
+  cases h with
+  | startFramed => exact Rep.startFramed _ _ (by assumption) (by assumption) (by simp)
+  | startUnframed => exact Rep.startUnframed _ _ (by assumption) (by assumption) (by assumption) (by assumption) (by simp)
+  | framed => exact Rep.framed _ _ _ (by assumption) (by assumption) (by assumption) (by simp)
+  | doneUnframed => exact Rep.doneUnframed _ _ (by assumption) (by assumption) (by assumption) (by simp)
+
+/-- `WriteTo`: everything pending and every remaining block, empty blocks included -/
+theorem writeTo_rep (c : Codec) (hg : Good c) (bs : List Bytes) (fuel : Nat) (r : Reader) (pend : Bytes)
+    (hf : bs.length < fuel) (hsm : ∀ b ∈ bs, (c.enc b).length < 256 ^ 4) (hrep : Rep c r pend bs) :
+    writeTo c fuel r = some (pend ++ bs.flatten) := by
+  induction bs generalizing fuel r pend with
+  | nil =>
+    obtain ⟨f1, rfl⟩ : ∃ f1, fuel = f1 + 1 := ⟨fuel - 1, by omega⟩
+    have hpe := hrep.pend_eq
+    have hrc := readChunk_rep c hg _ [] 0 hrep.consume hsm
+    simp only [writeTo, hpe]
+    rcases hrc with ⟨_, he⟩ | ⟨b, bs', hb, _⟩
+    · cases hch : readChunk c { r with offset := r.output.length } 0 with
+      | mk r' ch => rw [hch] at he; simp only at he; subst he; simp
+    · simp at hb
+  | cons b bs' ih =>
+    obtain ⟨f1, rfl⟩ : ∃ f1, fuel = f1 + 1 := ⟨fuel - 1, by omega⟩
+    have hpe := hrep.pend_eq
+    have hrc := readChunk_rep c hg _ (b :: bs') 0 hrep.consume hsm
+    simp only [writeTo, hpe]
+    rcases hrc with ⟨hb, _⟩ | ⟨b0, bs0, hb, hcase⟩
+    · simp at hb
+    · simp only [List.cons.injEq] at hb
+      obtain ⟨hb1, hb2⟩ := hb
+      subst hb1; subst hb2
+      have hsm' : ∀ x ∈ bs', (c.enc x).length < 256 ^ 4 := fun x hx => hsm x (by simp [hx])
+      have hf' : bs'.length < f1 := by simp only [List.length_cons] at hf; omega
+      cases hch : readChunk c { r with offset := r.output.length } 0 with
+      | mk r' ch =>
+        rw [hch] at hcase
+        simp only at hcase
+        rcases hcase with ⟨hle, he, hr'⟩ | ⟨_, he, hr', _, _⟩
+        · subst he
+          have hb0 : b = [] := List.eq_nil_of_length_eq_zero (by omega)
+          subst hb0
+          simp only
+          rw [ih f1 r' [] hf' hsm' hr']
+          simp
+        · subst he
+          simp only
+          rw [ih f1 r' b hf' hsm' hr']
+          simp
+
+
+/-! ### empty blocks: `Read` skips them (loops to the next chunk) -/
+
+theorem Rep.blocks_le_rest {c : Codec} {r : Reader} {pend : Bytes} {bs : List Bytes} (h : Rep c r pend bs) :
+    bs.length ≤ r.rest.length := by
+  cases h with
+  | startFramed =>
+    rename_i hr _
+    have hr' : r.rest = frame (bs.map c.enc) := by assumption
+    rw [hr']
+    have := frameBlocks_length_ge (bs.map c.enc)
+    simp only [frame, List.length_append, List.length_map] at this ⊢
+    omega
+  | framed =>
+    have hr' : r.rest = frameBlocks (bs.map c.enc) := by assumption
+    rw [hr']
+    have := frameBlocks_length_ge (bs.map c.enc)
+    simpa using this
+  | startUnframed p =>
+    have hr' : r.rest = c.enc p := by assumption
+    have hne : c.enc p ≠ [] := by assumption
+    rw [hr']
+    have : 0 < (c.enc p).length := List.length_pos_iff.mpr hne
+    simp; omega
+  | doneUnframed => simp
+
+/-- outcome of one `Read` on a represented state: EOF exactly when nothing is left, otherwise a non-empty piece of
+what is left -/
+def ReadOK (c : Codec) (k : Nat) (bs : List Bytes) (fuel : Nat) (r : Reader) (pend : Bytes) : Prop :=
+  (pend ++ bs.flatten = [] ∧ (read c fuel r k).2 = .eof) ∨
+  (∃ d pend' bs', d ≠ [] ∧ (read c fuel r k).2 = .data d ∧ Rep c (read c fuel r k).1 pend' bs' ∧
+    pend ++ bs.flatten = d ++ (pend' ++ bs'.flatten) ∧ (∀ b ∈ bs', (c.enc b).length < 256 ^ 4))
+
+theorem read_rep_step (c : Codec) (hg : Good c) (k : Nat) (hk : 1 ≤ k) (bs : List Bytes)
+    (ih : ∀ (bs' : List Bytes) (fuel : Nat) (r : Reader), bs'.length < bs.length → bs'.length + 2 ≤ fuel →
+      (∀ b ∈ bs', (c.enc b).length < 256 ^ 4) → Rep c r [] bs' → ReadOK c k bs' fuel r [])
+    (fuel : Nat) (r : Reader) (pend : Bytes) (hf : bs.length + 2 ≤ fuel)
+    (hsm : ∀ b ∈ bs, (c.enc b).length < 256 ^ 4) (hrep : Rep c r pend bs) : ReadOK c k bs fuel r pend := by
+  obtain ⟨f1, rfl⟩ : ∃ f1, fuel = f1 + 1 := ⟨fuel - 1, by omega⟩
+  unfold ReadOK
+  by_cases hp : pend = []
+  · subst hp
+    have hpe := hrep.pend_eq
+    have hnlt : ¬ r.offset < r.output.length := by
+      intro h
+      have : (r.output.drop r.offset).length = r.output.length - r.offset := List.length_drop
+      rw [hpe] at this; simp at this; omega
+    have hrc := readChunk_rep c hg r bs k hrep hsm
+    cases hch : readChunk c r k with
+    | mk r' ch =>
+      rw [hch] at hrc
+      simp only at hrc
+      rcases hrc with ⟨hb, he⟩ | ⟨b, bs', hb, hcase⟩
+      · left
+        subst he; subst hb
+        exact ⟨rfl, by simp only [read, hnlt, if_false, hch]⟩
+      · subst hb
+        have hsm' : ∀ x ∈ bs', (c.enc x).length < 256 ^ 4 := fun x hx => hsm x (by simp [hx])
+        rcases hcase with ⟨hle, he, hr'⟩ | ⟨hlt, he, hr', ho, hout⟩
+        · subst he
+          by_cases hbe : b = []
+          · -- an empty block: decoded "directly" into the caller's buffer, 0 bytes → next chunk
+            subst hbe
+            have := ih bs' f1 r' (by simp) (by simp only [List.length_cons] at hf; omega) hsm' hr'
+            have hrd : read c (f1 + 1) r k = read c f1 r' k := by
+              simp only [read, hnlt, if_false, hch, List.length_nil, Nat.lt_irrefl]
+            rw [hrd]
+            simpa [ReadOK] using this
+          · right
+            have hpos : b.length > 0 := List.length_pos_iff.mpr hbe
+            refine ⟨b, [], bs', hbe, ?_, ?_, by simp, hsm'⟩
+            · simp only [read, hnlt, if_false, hch, hpos, if_true]
+            · simp only [read, hnlt, if_false, hch, hpos, if_true]; exact hr'
+        · subst he
+          right
+          have hbne : b ≠ [] := by intro h0; subst h0; simp at hlt
+          obtain ⟨f2, rfl⟩ : ∃ f2, f1 = f2 + 1 := ⟨f1 - 1, by simp only [List.length_cons] at hf; omega⟩
+          have hb2 := read_buffered c f2 r' b bs' k hk hr' hbne
+          refine ⟨b.take k, b.drop k, bs', hb2.2.2, ?_, ?_, ?_, hsm'⟩
+          · simp only [read, hnlt, if_false, hch]; exact hb2.1
+          · simp only [read, hnlt, if_false, hch]; exact hb2.2.1
+          · simp only [List.nil_append, List.flatten_cons]; rw [← List.append_assoc, List.take_append_drop]
+  · right
+    have hb := read_buffered c f1 r pend bs k hk hrep hp
+    exact ⟨pend.take k, pend.drop k, bs, hb.2.2, hb.1, hb.2.1, by rw [← List.append_assoc, List.take_append_drop], hsm⟩
+
+/-- `Read` on a represented state, blocks may be empty -/
+theorem read_rep_any (c : Codec) (hg : Good c) (k : Nat) (hk : 1 ≤ k) : ∀ (n : Nat) (bs : List Bytes) (fuel : Nat)
+    (r : Reader) (pend : Bytes), bs.length ≤ n → bs.length + 2 ≤ fuel → (∀ b ∈ bs, (c.enc b).length < 256 ^ 4) →
+    Rep c r pend bs → ReadOK c k bs fuel r pend
+  | 0, bs, fuel, r, pend, hn, hf, hsm, hrep =>
+    read_rep_step c hg k hk bs (fun bs' _ _ hlt _ _ _ => by omega) fuel r pend hf hsm hrep
+  | n + 1, bs, fuel, r, pend, hn, hf, hsm, hrep =>
+    read_rep_step c hg k hk bs
+      (fun bs' fuel' r' hlt hf' hsm' hrep' => read_rep_any c hg k hk n bs' fuel' r' [] (by omega) hf' hsm' hrep')
+      fuel r pend hf hsm hrep
+
+/-- any consumer, any buffer sizes ≥ 1, blocks may be EMPTY -/
+theorem readAllWith_rep_any (c : Codec) (hg : Good c) (ks : List Nat) (r : Reader) (pend : Bytes) (bs : List Bytes)
+    (hks : ∀ k ∈ ks, 1 ≤ k) (hlen : (pend ++ bs.flatten).length < ks.length)
+    (hsm : ∀ b ∈ bs, (c.enc b).length < 256 ^ 4) (hrep : Rep c r pend bs) :
+    readAllWith c r ks = some (pend ++ bs.flatten) := by
+  induction ks generalizing r pend bs with
+  | nil => simp at hlen
+  | cons k ks ih =>
+    have hk : 1 ≤ k := hks k (by simp)
+    have hfuel : bs.length + 2 ≤ r.rest.length + 2 := by have := hrep.blocks_le_rest; omega
+    have hr := read_rep_any c hg k hk bs.length bs (r.rest.length + 2) r pend (Nat.le_refl _) hfuel hsm hrep
+    unfold ReadOK at hr
+    simp only [readAllWith]
+    cases hrd : read c (r.rest.length + 2) r k with
+    | mk r' res =>
+      rw [hrd] at hr
+      simp only at hr
+      rcases hr with ⟨hnil, he⟩ | ⟨d, pend', bs', hd, he, hrep', htot, hsm'⟩
+      · subst he; simp [hnil]
+      · subst he
+        have hdl : 0 < d.length := List.length_pos_iff.mpr hd
+        have hl' : (pend' ++ bs'.flatten).length < ks.length := by
+          have := congrArg List.length htot
+          simp only [List.length_append, List.length_cons] at this hlen ⊢
+          omega
+        have := ih r' pend' bs' (fun k hk => hks k (by simp [hk])) hl' hsm' hrep'
+        simp only [this, Option.map_some, htot]
+
 end KV.Model.Xerial
